@@ -1,5 +1,10 @@
 """Shared harness helpers: recording pools, sleep stub, coroutine driver."""
+import logging
+
 from cobald.interfaces import Pool
+
+# the runtime logs failures it is given on purpose: keep them off stderr
+logging.getLogger("cobald").addHandler(logging.NullHandler())
 
 from .. import symx
 
